@@ -61,6 +61,19 @@ func genMux(seed uint64, n int, maxOps int, demux bool, emit func(interface{})) 
 			emit(sc)
 			continue
 		}
+		if s == 61 && !demux {
+			// units without payload but with an adaptation field (a caller that only wants to send a PCR): whatever the Muxer does with them,
+			// the counters of the payload packets around them are consecutive and an adaptation-only packet consumes none
+			sc.Period = 40
+			sc.Ops = append(sc.Ops, muxOp{Op: "add", PID: 0x100, ST: 27, DK: "none"}, muxOp{Op: "setpcr", PID: 0x100}, muxOp{Op: "tables"})
+			for i := 0; i < 6; i++ {
+				sc.Ops = append(sc.Ops, muxOp{Op: "data", PID: 0x100, Len: r.pick(100, 184, 300), Hdr: "pts", AF: "none"},
+					muxOp{Op: "data", PID: 0x100, Len: 0, Hdr: "pts", AF: []string{"pcr", "raipcr", "rai"}[i%3]})
+			}
+			sc.Ops = append(sc.Ops, muxOp{Op: "data", PID: 0x100, Len: 50, Hdr: "pts", AF: "none"})
+			emit(sc)
+			continue
+		}
 		if s == 49 {
 			// payloads made of start codes: whatever the header and adaptation field sizes, some continuation packet begins with one
 			sc.Ops = append(sc.Ops, muxOp{Op: "add", PID: 0x100, ST: 27, DK: "none"}, muxOp{Op: "add", PID: 0x101, ST: 15, DK: "none"}, muxOp{Op: "setpcr", PID: 0x100}, muxOp{Op: "tables"})
